@@ -68,6 +68,13 @@ def lake_build(targets: list[str]):
     return rc == 0, out
 
 
+def leanchecker(module: str):
+    """second opinion: re-check the compiled .olean of `module` (and what it imports) with the
+    toolchain's independent checker; returns (ok, output)"""
+    rc, out = sh(["lake", "env", "leanchecker", module], cwd=LEAN_DIR)
+    return rc == 0, out
+
+
 def strip_comments(src: str) -> str:
     # block comments (possibly nested) then line comments
     out, depth, i = [], 0, 0
